@@ -1,6 +1,8 @@
 package main
 
 import (
+	"strings"
+
 	"golang.org/x/tools/go/ssa"
 )
 
@@ -22,6 +24,7 @@ func checkC05(c *Check) {
 	c.RuleDoc["R05.5"] = "error latch keeps the first error"
 	c.RuleDoc["R05.6"] = "EOF provenance (R06.1)"
 	c.RuleDoc["R05.7"] = "Blocks.close hands the latched (checksum) error to its caller on every branch"
+	c.RuleDoc["R05.10"] = "a decode worker closes its block channel (the collector's signal to discard the rest of the stream) only after the error has been latched"
 	c.RuleDoc["R05.8"] = "a pending error of the reading path is never absorbed"
 	p := loadOrTrouble(c, cfgAMD64)
 	if p == nil {
@@ -37,6 +40,7 @@ func checkC05(c *Check) {
 	ruleBlocksCloseLatch(c, p, "R05.7")
 	ruleErrorsNotAbsorbed(c, p, "R05.8", readerSideFuncs(p), errAbsorbExempt)
 	ruleSyntheticEOF(c, p, "R05.9")
+	c.only(func(k string) bool { return strings.HasPrefix(k, "initR.worker#") }, func() { ruleReleaseAfterUse(c, p, "R05.10") })
 	c.RuleDoc["R05.9"] = "io.EOF is synthesised only at the known end-of-stream decisions under their guards (an error of a mandatory field is never rewritten to a clean end)"
 }
 
